@@ -1,11 +1,12 @@
 (* C01 -- save then load reproduces the trajectory; files hold native-unit numbers an independent
    reader extracts.  Only statements, closed by [exact], and Print Assumptions.
    Model: Codec/Model.v (+ Gen/CodecTables.v regenerated from /repo); lemmas: Codec/*Proofs.v. *)
+From Coq Require Import Reals QArith Qabs.
 From Coq Require Import ZArith Ascii String Bool List Lia.
 Import ListNotations.
 Require Import MD.Gen.CodecTables MD.Codec.Model MD.Codec.Proofs MD.Codec.RestartProofs.
 Require Import MD.Codec.XtcModel MD.Codec.XtcProofs MD.Codec.XtcFrameProofs MD.Codec.NumProofs MD.Codec.MdcrdProofs.
-Require Import MD.Codec.XtcBitsProofs.
+Require Import MD.Codec.XtcBitsProofs MD.Codec.XtcQuantProofs MD.Codec.DcdModel MD.Codec.DcdProofs.
 Open Scope Z_scope.
 
 (* Python "%w.pf" % x followed by float(): for EVERY width, precision and binary number the reader gets
@@ -83,6 +84,33 @@ Theorem xtc_format_standard :
   src_xtc_raw_max_atoms = xtc_raw_max_atoms /\ src_xtc_magic = xtc_magic /\ lastidx = 73.
 Proof. repeat split. Qed.
 Print Assumptions xtc_format_standard.
+
+(* ---------------------------------------------------------------- DCD unit cell block (over R) *)
+(* the writer stores sin((pi/2)/90 * (90 - angle)) in the CHARMM slot order, the reader returns
+   90 - asin(.) * 90 / (pi/2): exact round trip of lengths and angles for angles in (0, 180) degrees *)
+Theorem dcd_cell_angles : forall c,
+  (0 < calpha c < 180 -> 0 < cbeta c < 180 -> 0 < cgamma c < 180 ->
+   dcd_read_cell (dcd_write_cell c) = Some c)%R.
+Proof. exact DcdProofs.dcd_cell_angles. Qed.
+Print Assumptions dcd_cell_angles.
+
+(* ... and the numbers in slots 1, 3, 4 are the cosines of gamma, beta, alpha an independent DCD reader expects *)
+Theorem dcd_slots_hold_cosines : forall c,
+  (dcd_write_cell c = [cA c; cos (cgamma c * PI / 180); cB c; cos (cbeta c * PI / 180);
+                       cos (calpha c * PI / 180); cC c])%R.
+Proof. exact DcdProofs.dcd_slots_hold_cosines. Qed.
+Print Assumptions dcd_slots_hold_cosines.
+
+(* the slot order found in dcdplugin.c (write_timestep and read_next_timestep) is the format's
+   [A, cos gamma, B, cos beta, cos alpha, C] *)
+Theorem dcd_format_standard : src_dcd_write_slots = dcd_slots_std /\ src_dcd_read_slots = dcd_slots_std.
+Proof. split; reflexivity. Qed.
+Print Assumptions dcd_format_standard.
+
+(* the units attributes written into HDF5 / NetCDF / NetCDF-restart files are those of the format conventions *)
+Theorem unit_attributes_standard : src_unit_attrs = unit_attrs_std.
+Proof. reflexivity. Qed.
+Print Assumptions unit_attributes_standard.
 
 (* ---------------------------------------------------------------- PDB *)
 (* _format_83: always 8 characters; the reader gets the sign and the digits that survive the cut
@@ -239,6 +267,24 @@ Theorem xtc_frame_roundtrip : forall cs p, xtc_encode cs = Some p ->
   xtc_decode (Z.of_nat (length cs)) p = Some cs.
 Proof. exact XtcFrameProofs.xtc_frame_roundtrip. Qed.
 Print Assumptions xtc_frame_roundtrip.
+
+(* the quantisation itself: lint = (int)(float(x * 1000) +- 0.5 stored to a float).  For every binary number x
+   whose product with the precision is a normal float32 (or zero), over the rationals:
+       |x * prec - lint|  <=  1/2 + (|x| * prec + 1) / 2^22
+   i.e. |x - lint/prec| <= (1/2 + eps)/prec with eps the two single-precision roundings (explicit
+   round-to-nearest-even on dyadic rationals, [rnd32]; not Flocq).  With xtc_frame_roundtrip: the coordinates an
+   XTC file holds are within the format's stated precision of the coordinates saved. *)
+Theorem xtc_quantise_error : forall x, 0 <= dmag x -> xtc_normal x ->
+  (Qabs (inject_Z xtc_prec * dyQ x - inject_Z (xtc_lint x)) <=
+    (1 # 2) + (inject_Z xtc_prec * Qabs (dyQ x) + 1) / inject_Z (2 ^ 22))%Q.
+Proof. exact XtcQuantProofs.xtc_quantise_error. Qed.
+Print Assumptions xtc_quantise_error.
+
+(* non-vacuity: 0.3f is in the normal range and quantises to 300 *)
+Example xtc_quantise_example :
+  let x := Dy false 10066330 (-25) in 0 <= dmag x /\ xtc_normal x /\ xtc_lint x = 300.
+Proof. cbv zeta. split; [vm_compute; discriminate|]. split; [right; vm_compute; discriminate|vm_compute; reflexivity]. Qed.
+Print Assumptions xtc_quantise_example.
 
 (* non-vacuity: twelve atoms with a run of close atoms (a "water") are accepted by the encoder *)
 Example xtc_encode_accepts :
